@@ -3,6 +3,7 @@ package c18
 import (
 	"bytes"
 	"fmt"
+	"io"
 	"runtime"
 	"runtime/debug"
 	"runtime/metrics"
@@ -18,10 +19,11 @@ const (
 	entUnmarshal            // (*encoder.Bytecode).UnmarshalBinary(data)
 	entObject               // encoder.DecodeObject(bytes.NewReader(data))
 	entDecodeFromNil        // encoder.DecodeBytecodeFrom(bytes.NewReader(data), nil)
+	entObjectPlain          // encoder.DecodeObject(r) with r a plain io.Reader (no Len, no ReadByte)
 	nEntries
 )
 
-var entryNames = [nEntries]string{"DecodeBytecodeFrom", "Bytecode.UnmarshalBinary", "DecodeObject", "DecodeBytecodeFrom(nil-modules)"}
+var entryNames = [nEntries]string{"DecodeBytecodeFrom", "Bytecode.UnmarshalBinary", "DecodeObject", "DecodeBytecodeFrom(nil-modules)", "DecodeObject(plain-io.Reader)"}
 
 func entryByName(s string) int {
 	for i, n := range entryNames {
@@ -38,7 +40,7 @@ const (
 	stErr            // returned an error
 	stPanic          // violation: panicked
 	stAlloc          // violation: allocation bound exceeded
-	stGobSlop        // not a violation: excess allocation is encoding/gob's own bounded (<10 MiB) read buffer
+	stGobSlop        // not judged: the excess was allocated inside encoding/gob (10 MiB chunks of internal/saferio)
 	stDeath          // violation: reproducible death of the worker process (parent side only)
 	stInconcl        // inconclusive (parent side only)
 )
@@ -53,10 +55,6 @@ type outcome struct {
 const (
 	allocFactor = 64
 	allocSlack  = 1 << 20
-	// encoding/gob reads a message of declared length n < 10 MiB into a
-	// buffer allocated up front (internal/saferio.ReadData): a constant-bounded
-	// over-allocation owned by the standard library's own hardening.
-	gobChunk = 10<<20 + 64<<10
 )
 
 func allocBound(n int) uint64 { return allocFactor*uint64(n) + allocSlack }
@@ -74,6 +72,9 @@ func callEntry(entry int, data []byte) error {
 		return bc.UnmarshalBinary(data)
 	case entObject:
 		_, err := encoder.DecodeObject(bytes.NewReader(data))
+		return err
+	case entObjectPlain:
+		_, err := encoder.DecodeObject(struct{ io.Reader }{bytes.NewReader(data)})
 		return err
 	}
 	panic("harness: bad entry")
@@ -117,9 +118,10 @@ func trimFn(name string) string {
 	return name
 }
 
-// frames returns (first function outside package runtime, first function
-// inside ozanh/ugo with file:line).
-func frames(pcs []uintptr) (leaf, site, where string) {
+// frames returns the first function outside package runtime (the caller of
+// the allocator / the panicking statement), the first function inside
+// ozanh/ugo with its file:line, and whether encoding/gob frames lie in between.
+func frames(pcs []uintptr) (leaf, site, where string, viaGob bool) {
 	if len(pcs) == 0 {
 		return
 	}
@@ -130,6 +132,9 @@ func frames(pcs []uintptr) (leaf, site, where string) {
 			if leaf == "" && !strings.HasPrefix(f.Function, "runtime.") {
 				leaf = f.Function
 			}
+			if strings.HasPrefix(f.Function, "encoding/gob.") {
+				viaGob = true
+			}
 			if strings.HasPrefix(f.Function, ugoPrefix) {
 				file := f.File
 				if i := strings.Index(file, "/encoder/"); i >= 0 {
@@ -137,7 +142,7 @@ func frames(pcs []uintptr) (leaf, site, where string) {
 				} else if i := strings.LastIndex(file, "/"); i >= 0 {
 					file = file[i+1:]
 				}
-				return leaf, trimFn(f.Function), fmt.Sprintf("%s:%d", file, f.Line)
+				return leaf, trimFn(f.Function), fmt.Sprintf("%s:%d", file, f.Line), viaGob
 			}
 		}
 		if !more {
@@ -214,33 +219,45 @@ func memProfile() map[[32]uintptr]int64 {
 	return m
 }
 
-// attribute re-runs the call and names the allocation site that grew most
-// according to the runtime's memory profile (allocations of 512 KiB and more
-// are always sampled).
-func attribute(entry int, data []byte) (leaf, site, where string, grown int64) {
+// growth summarises what was allocated between two profile snapshots: bytes
+// allocated inside encoding/gob (on behalf of the gob fallback) and bytes
+// allocated by everything else, with the biggest site of the latter.
+type growth struct {
+	Gob, Other        int64
+	Best              int64 // biggest non-gob site
+	Leaf, Site, Where string
+}
+
+func diffProfiles(before, after map[[32]uintptr]int64) (g growth) {
+	for k, v := range after {
+		d := v - before[k]
+		if d <= 0 {
+			continue
+		}
+		n := 0
+		for n < len(k) && k[n] != 0 {
+			n++
+		}
+		leaf, site, where, viaGob := frames(k[:n])
+		if viaGob {
+			g.Gob += d
+			continue
+		}
+		g.Other += d
+		if d > g.Best {
+			g.Best, g.Leaf, g.Site, g.Where = d, leaf, site, where
+		}
+	}
+	return
+}
+
+// attribute re-runs the call between two snapshots of the memory profile.
+func attribute(entry int, data []byte) growth {
 	before := memProfile()
 	guarded(entry, data)
 	after := memProfile()
 	lastProfile, sinceProfile = after, 0
-	return biggestGrowth(before, after)
-}
-
-func biggestGrowth(before, after map[[32]uintptr]int64) (leaf, site, where string, grown int64) {
-	var best [32]uintptr
-	for k, v := range after {
-		if d := v - before[k]; d > grown {
-			grown, best = d, k
-		}
-	}
-	if grown == 0 {
-		return
-	}
-	n := 0
-	for n < len(best) && best[n] != 0 {
-		n++
-	}
-	leaf, site, where = frames(best[:n])
-	return
+	return diffProfiles(before, after)
 }
 
 // Re-running a call that allocates hundreds of megabytes is slow (the block is
@@ -275,7 +292,7 @@ func checkOne(entry int, data []byte) outcome {
 	err, pv, pcs := guarded(entry, data)
 	a1 := heapAllocs()
 	if pv != nil {
-		_, site, where := frames(pcs)
+		_, site, where, _ := frames(pcs)
 		if site == "" {
 			site = "?"
 		}
@@ -302,30 +319,44 @@ func checkOne(entry int, data []byte) outcome {
 			return outcome{Status: st}
 		}
 	}
-	var leaf, site, where string
-	var grown int64
+	// Who allocated? encoding/gob reads a message of declared length n and
+	// makes slices of declared length n in chunks of up to 10 MiB
+	// (internal/saferio) before the data is there: that over-allocation belongs
+	// to the standard library's own hardening and is not judged here.
+	var g growth
+	gobOnly := false
 	if used >= noRerunFrom {
 		after := memProfile()
-		leaf, site, where, grown = biggestGrowth(lastProfile, after)
+		g = diffProfiles(lastProfile, after)
 		lastProfile, sinceProfile = after, 0
-		if uint64(grown) < used/2 {
-			leaf, site, where = "", "", ""
+		switch {
+		case uint64(g.Best) >= used/2:
+		case uint64(g.Gob) >= used/2:
+			gobOnly = true
+		default:
+			g.Site = ""
 		}
 	} else {
-		leaf, site, where, grown = attribute(entry, data)
+		g = attribute(entry, data)
+		if uint64(g.Other) <= bound {
+			if g.Gob > 0 {
+				gobOnly = true
+			} else {
+				g.Site = ""
+			}
+		}
 	}
-	if used <= bound+gobChunk && uint64(grown) <= gobChunk &&
-		(strings.HasPrefix(leaf, "internal/saferio.") || strings.HasPrefix(leaf, "encoding/gob.")) {
-		return outcome{Status: stGobSlop}
+	if gobOnly {
+		return outcome{Status: stGobSlop, Retire: used >= retireFrom}
 	}
+	site, where := g.Site, g.Where
 	if site == "" {
-		site = entryNames[entry]
-		where = "unattributed"
+		site, where = entryNames[entry], "unattributed"
 	}
 	return outcome{Status: stAlloc, Retire: used >= retireFrom,
 		Sig: "alloc-bound:" + site,
-		What: fmt.Sprintf("%s on %d bytes allocated %d bytes (bound %d = 64*len+1MiB) and returned err=%v; largest site %s (%s, %d bytes, allocator caller %s); input %s",
-			entryNames[entry], len(data), used, bound, err, site, where, grown, leaf, hexPrefix(data))}
+		What: fmt.Sprintf("%s on %d bytes allocated %d bytes (bound %d = 64*len+1MiB) and returned err=%v; largest site %s (%s, %d bytes, allocator caller %s; profile: %d bytes outside encoding/gob, %d inside); input %s",
+			entryNames[entry], len(data), used, bound, err, site, where, g.Best, g.Leaf, g.Other, g.Gob, hexPrefix(data))}
 }
 
 var _ = ugo.Undefined
